@@ -5,6 +5,34 @@ CAFS_TRUSTED = ["BLAKE2b: the Lean implementation (Model/Blake2b.lean) equals mi
                 "harness/internal/memstore as the blob store contract"]
 
 PROPS = {
+    "C07": {
+        "sub": "c07",
+        "thorough_seeds": 1,
+        "trivial": r"^ls .* w=set$",
+        "level_text": "Proof: for every store content, page size n >= 1 and completion order of the parallel fetches, the model of "
+                      "fetchKeys / basenameKeyFilter / mergeKeys / per-batch fetch+sort returns exactly the existing objects of the kind, "
+                      "each once (C07_repos/bundles/labels/diamonds/splits_complete_exact, on top of C07_fetch_complete: the page loop "
+                      "returns every item for every page size); ListRepos/ListLabels/ListDiamonds/ListSplits are sorted by the kind's "
+                      "sort field and ListBundles by id for every page size (C07_full_ordered, C07_bundles_ordered), independent of the "
+                      "completion order (C07_list_perm). The streaming *Apply variants are ordered iff no later batch holds an object "
+                      "sorting before one of an earlier batch (C07_apply_ordered_iff; witness C07_neg_apply_order_depends_on_page_size: "
+                      "known finding C07-apply-order). C07_restrict: a listing only depends on the slice of the store under its prefix "
+                      "(the driver replays on that slice). The model is tied to pkg/core by listing real stores (real API + real "
+                      "descriptors at the real paths) with page sizes 1..2048 and concurrency 1..32 and comparing set and order.",
+        "level_note": "Trusted: Lean kernel, harness and driver, the reference object store (memstore: start-key tokens, sorted items). "
+                      "The Go code is modelled by hand (goroutine pipelines as sequential stages; the completion order of a batch is an "
+                      "arbitrary permutation). Interruptions (done channel) and store errors are not modelled; descriptors are assumed "
+                      "to carry the id of their path. Label versions (WithLabelVersions) need a versioned store and are not covered.",
+        "trusted": ["memstore implements the KeysPrefix contract of DESIGN 3.1 (sorted items, start-key token, next = first item not returned)"],
+        "assumptions": ["repository, label, diamond and split names contain no '/'",
+                        "every key under a listed prefix has the documented shape (otherwise the Go code returns a parse error)",
+                        "an object exists iff its descriptor exists (a diamond / split: its running descriptor, as DiamondExists does)",
+                        "start times are non-zero (the Less of diamonds/splits falls back to ids otherwise); ties of the sort field "
+                        "are compared up to permutation (sort.Sort is not stable)"],
+        "rule": "one evaluation = one listing call (kind, variant ListX / ListXApply, repo, page size, concurrency) on the real code, "
+                "compared twice with the Lean model: the set of returned objects (w=set) and their order (w=seq); distinct = distinct "
+                "w=seq operation text; the w=set lines are not counted",
+    },
     "C13": {
         "sub": "c13",
         "lean_modules": ["DatamonVerif.Props.C13", "DatamonVerif.Props.C14"],
